@@ -1,12 +1,40 @@
 import Driver.Util
-/- Line-protocol handler for the `kern` model (stub until the model exists). -/
+import Munge.Gen.Dec
+/- Line-protocol handler for the translated kernels of dec.c / enc.c (translation validation). -/
 namespace Driver.Kern
+open Munge.C Munge.Gen.Dec
 
 structure St where
   dummy : Unit := ()
 
 def init : St := {}
 
-def step (st : St) (_args : List String) : St × String := (st, "bad-op")
+def show1 (o : KOut) (fields : List (String × String × Int)) : String :=
+  let fs := fields.map fun (label, path, old) => s!" {label}={o.get path old}"
+  s!"ret={o.ret} err={o.err}{String.join fs}"
+
+def run (name : String) (a : List Int) : String :=
+  match name, a with
+  | "dec_validate_time", [ttl, t0, t1, mx, sk] =>
+      show1 (dec_validate_time ttl t0 t1 mx sk) [("ttl", "c.msg.ttl", ttl)]
+  | "dec_validate_auth", [au, ag, cu, cg, root, mem] =>
+      show1 (dec_validate_auth au ag cu cg root (fun _ _ => mem)) []
+  | "dec_validate_replay", [retry, gotRetry, errno, ins] =>
+      show1 (dec_validate_replay retry gotRetry errno 0 0 ins) []
+  | "dec_check_retry", [retry] => show1 (dec_check_retry retry 0 0) []
+  | "enc_check_retry", [retry] => show1 (enc_check_retry retry 0 0) []
+  | "dec_validate_msg", [dl, ptr] => show1 (dec_validate_msg dl ptr) []
+  | "enc_validate_msg", [c, m, z, dl, ttl, dc, dm, dz, dt, mt] =>
+      show1 (enc_validate_msg c m z dl ttl dc dm dz dt mt cipher_map_enum_real mac_map_enum_real mac_size_real
+              cipher_key_size_real zip_is_valid_type_real)
+        [("cipher", "m.cipher", c), ("mac", "m.mac", m), ("zip", "m.zip", z), ("ttl", "m.ttl", ttl)]
+  | _, _ => "bad-op"
+
+def step (st : St) (args : List String) : St × String :=
+  match args with
+  | name :: rest => match ints rest with
+    | some a => (st, run name a)
+    | none => (st, "bad-op")
+  | _ => (st, "bad-op")
 
 end Driver.Kern
